@@ -14,6 +14,9 @@ Proof.
   - apply IH in H. cbn [rev] in H. rewrite <- app_assoc in H. exact H.
 Qed.
 
+Lemma lazy_exists_eq {X} (f : X -> bool) l : lazy_exists f l = existsb f l.
+Proof. induction l as [|x l IH]; cbn; [reflexivity|]. rewrite IH. now destruct (f x). Qed.
+
 Section Sound.
   Context {S : Type}.
   Variable sem : S -> cop -> S * cres.
@@ -23,9 +26,9 @@ Section Sound.
     induction fuel as [|f IH]; intros s h H; [discriminate|]. cbn [lin] in H.
     destruct h as [|x h'].
     - exists []. repeat split; constructor.
-    - apply existsb_exists in H as ([e rest] & Hin & Hc).
-      apply andb_prop in Hc as [Hmin Hc].
-      destruct (sem s (h_op e)) as [s' r] eqn:E. apply andb_prop in Hc as [Hres Hrec].
+    - rewrite lazy_exists_eq in H. apply existsb_exists in H as ([e rest] & Hin & Hc).
+      destruct (minimal e rest) eqn:Hmin; [|discriminate].
+      destruct (sem s (h_op e)) as [s' r] eqn:E. destruct (cres_eqb r (h_res e)) eqn:Hres; [|discriminate]. rename Hc into Hrec.
       destruct (IH s' rest Hrec) as (l & Hp & Hl & Hrt).
       exists (e :: l). split; [|split].
       + eapply Permutation_trans; [apply perm_skip; exact Hp|].
